@@ -1127,6 +1127,14 @@ func (e *Engine) binop(st *State, op token.Token, x, y Val, xt, rt types.Type, p
 	case token.ADD:
 		return mkw(sAdd(a, b))
 	case token.SUB:
+		if _, _, w, signed, ok := intRange(rt); ok && w >= 64 && !signed {
+			// unsigned 64-bit subtraction wraps exactly (the one 64-bit operation whose wrap-around is reachable with
+			// ordinary values: a smaller minus a larger count)
+			d := sSub(a, b)
+			if _, isLit := litVal(d); !isLit || strings.HasPrefix(d, "(-") || strings.HasPrefix(d, "-") {
+				return Val{K: KInt, T: st.define("w", "Int", "(ite (<= "+b+" "+a+") "+d+" (+ "+d+" 18446744073709551616))"), Ty: rt}
+			}
+		}
 		return mkw(sSub(a, b))
 	case token.MUL:
 		return mkw(sMul(a, b))
